@@ -183,6 +183,40 @@ def m_duplicate_display(spec, wb, rng):
     return True
 
 
+def m_duplicate_display_across(sheet_a, sheet_b):
+    """the display name of the first row of sheet_a is given to a row of sheet_b as well"""
+
+    def f(spec, wb, rng):
+        try:
+            wa, wb_ = sheet(wb, sheet_a), sheet(wb, sheet_b)
+        except Exception:
+            return False
+        ha, hb = header(wa), header(wb_)
+        if wa.max_row < 2 or wb_.max_row < 2 or "display name" not in ha or "display name" not in hb:
+            return False
+        name = wa.cell(2, ha["display name"]).value
+        if not name:
+            return False
+        r = 2 + int(rng.integers(0, wb_.max_row - 1))
+        if wb_.cell(r, 1).value in (None, ""):
+            r = 2
+        wb_.cell(r, hb["display name"]).value = name
+        return True
+
+    return f
+
+
+def m_duplicate_code_same_sheet(sheetname):
+    def f(spec, wb, rng):
+        ws = sheet(wb, sheetname)
+        if ws.max_row < 3 or ws.cell(3, 1).value in (None, ""):
+            return False
+        ws.cell(3, 1).value = ws.cell(2, 1).value
+        return True
+
+    return f
+
+
 def m_rename_code(newname):
     def f(spec, wb, rng):
         cands = [p["name"] for p in spec["pars"] if p["name"].startswith("aux") and p["function"] is None]
@@ -468,6 +502,12 @@ FW_MUTATIONS = [
     ("aggregation-of-expression", "reject", m_function(lambda s, p, r: "SRC_POP_AVG(%s+1)" % _ords(s)[0])),
     ("duplicate-code-name", "reject", m_duplicate_code),
     ("duplicate-display-name", "reject", m_duplicate_display),
+    ("duplicate-display-name-across-sheets[compartment=parameter]", "reject", m_duplicate_display_across("Compartments", "Parameters")),
+    ("duplicate-display-name-across-sheets[compartment=characteristic]", "reject", m_duplicate_display_across("Compartments", "Characteristics")),
+    ("duplicate-display-name-across-sheets[parameter=characteristic]", "reject", m_duplicate_display_across("Parameters", "Characteristics")),
+    ("duplicate-display-name-across-sheets[characteristic=interaction]", "reject", m_duplicate_display_across("Characteristics", "Interactions")),
+    ("duplicate-code-name-within-sheet[Compartments]", "reject", m_duplicate_code_same_sheet("Compartments")),
+    ("duplicate-code-name-within-sheet[Characteristics]", "reject", m_duplicate_code_same_sheet("Characteristics")),
     ("reserved-keyword-code-name[t]", "reject", m_rename_code("t")),
     ("reserved-keyword-code-name[all]", "reject", m_rename_code("all")),
     ("reserved-keyword-code-name[max]", "reject", m_rename_code("max")),
